@@ -8,6 +8,7 @@ import Chokan.Model.Server
 import Chokan.Lemmas.Kkc
 import Chokan.Props.C03
 import Chokan.Props.C08
+import Chokan.Lemmas.ConcSess
 
 namespace Chokan.Props.C15
 open Chokan.Server Chokan.Kkc Chokan.Dic
@@ -400,5 +401,92 @@ example : (convert C08.cfg exState .normal [12363]).map
   intro op hop cid now
   simp only [exOps, List.mem_cons, List.not_mem_nil, or_false] at hop
   rcases hop with rfl | rfl | rfl | rfl | rfl <;> simp
+
+
+/-! ## order of events inside the handlers and the updater, as extracted from the code (Model/Conc, `Gen.Server`) -/
+
+open Chokan.Conc Chokan.Gen.Server in
+/-- **The session is stored before the answer leaves.** On every control-flow path of every converting handler
+the session is added to the store — under the store's lock — before the response is built; a handler that has
+answered has therefore executed `add_session` itself (nothing is handed to another thread). -/
+theorem C15_conc_session_before_answer :
+    ((convertingPaths handlerPaths).all fun p =>
+      occursBefore (.act .addSession) .respond p && p.contains .respond && actUnder .addSession .store p &&
+      occursBefore (.act .compute) (.act .addSession) p) = true ∧
+    2 ≤ (convertingPaths handlerPaths).length := by decide
+
+open Chokan.Conc Chokan.Gen.Server in
+/-- **A confirmation is one critical section on the store and on the counts.** On every path of `UpdateFrequency`
+the session is popped under the store lock, the count is updated under the lock of the learned data *while the
+store lock is still held* (two confirmations can not interleave their read-modify-write), a learned compound is
+queued before the answer, and the answer comes last. -/
+theorem C15_conc_confirm_sections :
+    ((pathsOf "UpdateFrequency" handlerPaths).all fun p =>
+      occursBefore (.act .popSession) .respond p && actUnder .popSession .store p &&
+      actUnder .updFreq .userPref p && actUnder .updFreq .store p &&
+      actUnder .updCompound .userPref p &&
+      (!(p.contains (.act .updCompound)) || occursBefore (.act .updCompound) (.send .entry) p) &&
+      (!(p.contains (.send .entry)) || occursBefore (.send .entry) .respond p)) = true ∧
+    (pathsOf "UpdateFrequency" handlerPaths).any (·.contains (.act .updFreq)) = true := by decide
+
+open Chokan.Conc Chokan.Gen.Server in
+/-- **An acknowledged registration is in the queue, and the queue is drained one entry at a time.** `RegisterWord`
+sends the entry on the (unbounded) channel before it answers; the updater takes one entry per iteration, records
+it in the user dictionary under that lock and then merges it under the dictionary lock — once each. -/
+theorem C15_conc_registration_queued :
+    ((pathsOf "RegisterWord" handlerPaths).all fun p => occursBefore (.send .entry) .respond p) = true ∧
+    (pathsOf "RegisterWord" handlerPaths) ≠ [] ∧ chanUnbounded .entry = true ∧
+    (taskMain.filter (·.contains (.recv .entry))).length = 1 ∧
+    ((taskMain.filter (·.contains (.recv .entry))).all fun p =>
+      (p.filter (· == .recv .entry)).length = 1 && (p.filter (· == .act .addEntry)).length = 1 &&
+      occursBefore (.recv .entry) (.act .addEntry) p && occursBefore (.act .addEntry) (.act .mapInsert) p &&
+      actUnder .addEntry .userPref p) = true := by decide
+
+
+open Chokan.Conc Chokan.Gen.Server in
+/-- **Under every interleaving, a confirmation that comes after the answer finds the session.**  Any number of
+requests of any shape run concurrently with the background loops (`reqs`: event lists, each confirmation aimed at
+the conversion thread whose answer it confirms); thread `c` runs a path of a converting handler *as extracted from
+the code*.  In the state reached by any schedule, if `c` has sent its answer, `u` is a confirmation of that answer
+about to execute `pop_session`, and no confirmation of the same answer has popped before, then the pop finds the
+session — the very id `c` stored — and takes it out of the store.  (With the session handed to another thread, as
+before fix 519c3f2, `C15_conc_session_before_answer` fails and with it this theorem.) -/
+theorem C15_conc_confirmation_finds_session (reqs : List (List Ev × Option Nat)) (tasks : List (List (List Ev)))
+    (capOf : Chan → Nat) (sched : List (Nat × Nat)) (c u k : Nat) (lu : Local)
+    (hc : ∃ r, reqs[c]? = some r ∧ r.1 ∈ convertingPaths handlerPaths)
+    (hans : answered (drun (dinit chanUnbounded capOf reqs tasks) sched).st c = true)
+    (hu : (drun (dinit chanUnbounded capOf reqs tasks) sched).locals[u]? = some lu) (htu : lu.target = some c)
+    (hhead : headEv (drun (dinit chanUnbounded capOf reqs tasks) sched).st u = some (.act .popSession))
+    (hfirst : ∀ (u' : Nat) (lu' : Local), (drun (dinit chanUnbounded capOf reqs tasks) sched).locals[u']? = some lu' →
+      lu'.target = some c → lu'.found = none) :
+    ∃ lu' sid, (dstep (drun (dinit chanUnbounded capOf reqs tasks) sched) (u, k)).locals[u]? = some lu' ∧
+      lu'.found = some true ∧
+      (drun (dinit chanUnbounded capOf reqs tasks) sched).locals[c]?.bind (·.sid) = some sid ∧
+      sid ∈ (drun (dinit chanUnbounded capOf reqs tasks) sched).sess ∧
+      sid ∉ (dstep (drun (dinit chanUnbounded capOf reqs tasks) sched) (u, k)).sess := by
+  have hpaths : ∀ p ∈ convertingPaths handlerPaths,
+      occursBefore (.act .addSession) .respond p = true ∧ .respond ∈ p := by
+    have h := C15_conc_session_before_answer.1
+    rw [List.all_eq_true] at h
+    intro p hp
+    have := h p hp
+    simp only [Bool.and_eq_true, List.contains_eq_mem, decide_eq_true_eq] at this
+    exact ⟨this.1.1.1, this.1.1.2⟩
+  have hinv := SInv_drun sched (SInv_dinit chanUnbounded capOf reqs tasks _ hpaths)
+  exact pop_finds hinv c u k lu hc hans hu htu hhead hfirst
+
+open Chokan.Conc Chokan.Gen.Server in
+/-- non-vacuity: a conversion runs to its answer, then its confirmation takes the store lock and is about to pop —
+the hypotheses of the theorem hold and the pop finds session 0 -/
+example :
+    let reqs : List (List Chokan.Gen.Server.Ev × Option Nat) :=
+      ((Chokan.Conc.convertingPaths handlerPaths).take 1).map (·, none) ++
+      ((Chokan.Conc.pathsOf "UpdateFrequency" handlerPaths).drop 2).map (·, some 0)
+    let d := Chokan.Conc.drun (Chokan.Conc.dinit chanUnbounded (fun _ => 0) reqs taskPaths)
+      [(0, 0), (0, 0), (0, 0), (0, 0), (0, 0), (0, 0), (0, 0), (0, 0), (0, 0), (1, 0)]
+    reqs.length = 2 ∧ Chokan.Conc.answered d.st 0 = true ∧
+    Chokan.Conc.headEv d.st 1 = some (.act .popSession) ∧ d.sess = [0] ∧
+    (Chokan.Conc.dstep d (1, 0)).sess = [] ∧
+    ((Chokan.Conc.dstep d (1, 0)).locals.map (·.found)) = [none, some true, none, none, none] := by decide
 
 end Chokan.Props.C15
